@@ -109,6 +109,9 @@ class Rebalancing:
             if not self.fractional:
                 # Fractional shares are not supported. Round to smallest digit.
                 quantity = int(quantity)
+                if quantity == 0:
+                    # Imbalance is smaller than one lot. Nothing to trade.
+                    continue
             if abs(weights[contract]) < self.margin and contract in self.allocation:
                 # Imbalance weight is smaller than margin. Skip to save costs.
                 continue
